@@ -36,7 +36,8 @@ FLOORS = {"oracle.frame_codec": 2000, "oracle.partition": 300, "cut.in_length": 
           "partition.coalesced": 20, "enumerated.two_cut": 1000, "oracle.socket_stream": 100,
           "socket.frame_length_multiple_of_receiver_read_size": 30,
           "oracle.frames_after_a_pause_longer_than_T8": 16, "stream.frames_repeating_the_previous_header": 200,
-          "oracle.new_connection_after_unfinished_frame": 50, "oracle.back_to_back_frames": 1000}
+          "oracle.new_connection_after_unfinished_frame": 50, "oracle.back_to_back_frames": 1000,
+          "oracle.data_directly_followed_by_the_end_of_the_session": 100}
 
 HEADER_ONLY = None
 
@@ -566,6 +567,74 @@ def _part_f(ctx, rounds):
     sess.rig.close()
 
 
+def _part_g(ctx, rounds):
+    """Data frames with the frame that ends the selected session (Deselect.req, Separate.req) directly behind them - in one
+    segment, or cut anywhere - while the application may still be busy with an earlier message: every data frame arrived in
+    SELECTED, so every one is delivered, in order, and none is rejected; then the session ends."""
+    import time
+
+    rng = ctx.rng
+    ho = _header_only()
+    sess = Session(ctx)
+    if not sess.ok:
+        ctx.unsure("part G: could not establish a selected session")
+        return
+    for rnd in range(rounds):
+        rig = sess.rig
+        slow = rng.random() < 0.6
+        rig.message_hook = (lambda rec: time.sleep(0.004)) if slow else None
+        n = rng.randint(1, 6)
+        frames, expect = [], []
+        for _ in range(n):
+            system = next(sess.sysgen)
+            (s, f), w, body = rng.choice(ho), rng.random() < 0.3, rng.randbytes(rng.choice([0, 3, 40]))
+            frames.append(wire.hsms_data(s, f, w, system, body))
+            expect.append((system, s, f, w, body))
+        end = rng.choice(["Deselect.req", "Separate.req"])
+        esys = next(sess.sysgen)
+        frames.append(wire.hsms_control(wire.DESELECT_REQ if end == "Deselect.req" else wire.SEPARATE_REQ, esys))
+        data = b"".join(frames)
+        kind = rng.choice(["whole", "whole", "random", "bytes"])
+        segs = gen.partitions(rng, len(data), kind)
+        before, fb = len(rig.delivered), len(rig.pipe.frames())
+        ctx.case(("session-end-behind-data", rnd, n, end, kind, slow), nontrivial=True)
+        ctx.count("oracle.data_directly_followed_by_the_end_of_the_session")
+        pos = 0
+        for k in segs:
+            rig.pipe.feed(data[pos:pos + k])
+            pos += k
+
+        def done():
+            return rig.state != "CONNECTED_SELECTED" and len(rig.delivered) >= before + n
+        if not rig.wait(done, timeout=10.0):
+            rig.confirm_absent(done, 0.5)
+        got = [(m["system"], m["stream"], m["function"], m["wbit"], m["body"]) for m in rig.delivered[before:]]
+        out = rig.pipe.frames()[fb:]
+        rejects = [f.describe() for f in out if f.stype == wire.REJECT_REQ]
+        if got != expect or rejects:
+            ctx.violation("data-received-in-SELECTED-not-delivered-when-the-session-end-follows-at-once",
+                          {"ended_by": end, "partition": kind, "segments": segs[:20], "application_busy": slow,
+                           "sent": [hex(m[0]) for m in expect], "delivered": [hex(m[0]) for m in got], "rejects": rejects[:4], "state": rig.state})
+            rig.close()
+            sess = Session(ctx)
+            if not sess.ok:
+                ctx.unsure("part G: could not re-establish a selected session after a violation")
+                return
+            continue
+        # select again for the next round
+        rsys = next(sess.sysgen)
+        rig.pipe.feed(wire.hsms_control(wire.SELECT_REQ, rsys))
+        ok = rig.wait(lambda: rig.state == "CONNECTED_SELECTED" and any(f.stype == wire.SELECT_RSP and f.system == rsys for f in rig.pipe.frames()[fb:]), 5.0)
+        sess.seen_delivered, sess.seen_frames = len(rig.delivered), len(rig.pipe.frames())
+        if not ok:
+            rig.close()
+            sess = Session(ctx)
+            if not sess.ok:
+                ctx.unsure("part G: could not select again (C05 judges that)")
+                return
+    sess.rig.close()
+
+
 def run(ctx):
     from lib import vtime
     vtime.install()   # the protocol's 30 s linktest timer must not fire in the middle of a long session
@@ -574,4 +643,5 @@ def run(ctx):
     _part_c(ctx, 25 if ctx.quick else 600)
     _part_d(ctx, 400 if ctx.quick else 20000)
     _part_f(ctx, 12 if ctx.quick else 400)
+    _part_g(ctx, 40 if ctx.quick else 1500)
     _part_e(ctx, 4 if ctx.quick else 40)     # (last: part A codes SECS-I blocks before anything touches the HSMS codec in this process)
